@@ -26,6 +26,8 @@ def allowed : String → List String
   | "midhandshake-conn" => ["closed"]           -- a connection still shaking hands when the socket was closed
   | "second-listen" => ["addrinuse"]            -- a second listener for an address in use
   | "bystander-dial" => ["ok"]                  -- … whose closing leaves the owner of the address in service
+  | "listener-close-keeps-pipes" => ["kept"]   -- Listener.Close alone: the connections it accepted keep working
+  | "dial-parked-at-close" => ["returned"]      -- a Dial waiting for a listener returns when that listener is closed
   | _ => []
 
 /-- nothing but Close itself and a Recv that finds a queued message reports success on a closed socket, and nothing
